@@ -28,9 +28,9 @@ OTHERS = {
 }
 CONTEXTS = {
     "bare": "%s", "and-r": "(%s) and True", "and-l": "True and (%s)", "or-r": "(%s) or False", "or-l": "False or (%s)", "not": "not (%s)",
-    "not-and": "not (%s) and True", "any": "any((%s) for _i in [1])",
+    "not-and": "not (%s) and True", "any": "any((%s) for _i in [1])", "chain-after-true": "%s", "chain-before-true": "%s",
 }
-CTX_EXPECT = {"bare": False, "and-r": False, "and-l": False, "or-r": False, "or-l": False, "not": True, "not-and": True, "any": False}
+CTX_EXPECT = {"chain-after-true": False, "chain-before-true": False, "bare": False, "and-r": False, "and-l": False, "or-r": False, "or-l": False, "not": True, "not-and": True, "any": False}
 HOW = ["Selector", "CompiledSelector", "make_selector", "make_selector_forced"]
 
 REC = rs("c8/rec", [["varint", "n"], ["string", "s"], ["float", "f"], ["boolean", "b"], ["string[]", "l"], ["path", "p"],
@@ -78,6 +78,11 @@ def run_expr(case):
     op, pos, ok, ctx, how = case["op"], case["pos"], case["other"], case["ctx"], case["how"]
     o = OTHERS[ok]
     cmp_ = {"left": "r.zz %s %s" % (op, o), "right": "%s %s r.zz" % (o, op), "both": "r.zz %s r.zq" % op}[pos]
+    if ctx == "chain-after-true":  # the comparison is the second link of a chain whose first link is true
+        cmp_ = {"left": "r.n == r.n == r.zz %s %s" % (op, o) if False else "1 == 1 and r.zz %s %s" % (op, o), "right": "%s == %s %s r.zz" % (o, o, op),
+                "both": "r.zz %s r.zq == r.zq" % op}[pos]
+    elif ctx == "chain-before-true":
+        cmp_ = {"left": "r.zz %s %s == %s" % (op, o, o), "right": "r.n == r.n and %s %s r.zz" % (o, op), "both": "r.zz %s r.zq" % op}[pos]
     expr = CONTEXTS[ctx] % cmp_
     rec = the_record()
     viol = []
